@@ -33,7 +33,7 @@ func TestC17Batches(t *testing.T) {
 		}
 	})
 	rapid.Check(t, func(rt *rapid.T) {
-		kind := rapid.SampledFrom([]string{"create", "delete", "cleanup", "reconcile-create", "reconcile-cleanup", "reconcile-mixed", "reconcile-mixed"}).Draw(rt, "kind")
+		kind := rapid.SampledFrom([]string{"create", "delete", "cleanup", "reconcile-create", "reconcile-cleanup", "reconcile-mixed", "reconcile-mixed", "reconcile-canary-cleanup"}).Draw(rt, "kind")
 		n := rapid.SampledFrom([]int{2, 3, 5, 8, 16, 33, 64}).Draw(rt, "size")
 		mode := rapid.SampledFrom([]string{"none", "some", "some", "all"}).Draw(rt, "failing")
 		failing := map[int]bool{}
@@ -61,6 +61,10 @@ func TestC17Batches(t *testing.T) {
 		word := "A"
 		if kind == "reconcile-mixed" {
 			word = "AB" // an old template to delete pods of
+		}
+		if kind == "reconcile-canary-cleanup" {
+			one := intstrOf(1)
+			st.Canary = &edsv1.ExtendedDaemonSetSpecStrategyCanary{Replicas: &one, ValidationMode: edsv1.ExtendedDaemonSetSpecStrategyCanaryValidationModeManual}
 		}
 		// template tolerations: for some lengths the slice decoded from the API has spare capacity
 		prepTolerations = rapid.SampledFrom([]int{0, 0, 1, 9, 10, 11, 20, 21, 30}).Draw(rt, "templateTolerations")
@@ -182,6 +186,41 @@ func TestC17Batches(t *testing.T) {
 					which = "creations"
 				}
 				fail("C17/conditions/ReconcileError/mixed-sync-failed-"+which, fmt.Sprintf("one sync: %d pod deletions and %d pod creations failed but ReconcileError=%v", dels, crs, got))
+			}
+		case "reconcile-canary-cleanup":
+			// the replica set first syncs as the active one (its clean-up succeeds and is recorded), then the
+			// ExtendedDaemonSet makes it the canary (a reverted template re-uses the set with its old conditions);
+			// every canary node holds a duplicate pod whose clean-up deletion may fail
+			c.Advance(time.Minute)
+			ff := c.Faults
+			c.Faults = nil // the first sync (as the active set) goes through
+			c.Reconcile(sim.ActorERS, "ns1", rs.Name)
+			c.Faults = ff
+			var names []string
+			for _, nd := range nodes {
+				names = append(names, nd.Name)
+			}
+			c.MutateEDS("ns1", "foo", func(x *edsv1.ExtendedDaemonSet) {
+				x.Status.ActiveReplicaSet = "foo-previous"
+				x.Status.Canary = &edsv1.ExtendedDaemonSetStatusCanary{ReplicaSet: rs.Name, Nodes: names}
+			})
+			c.KubeletProgress()
+			for _, nd := range nodes {
+				p.addPod(nd.Name, 'A', PSAvailable, time.Second) // a second, younger pod on the node: the duplicate
+			}
+			injected = 0
+			c.Advance(time.Minute)
+			c.Reconcile(sim.ActorERS, "ns1", rs.Name)
+			post := c.ERS("ns1", rs.Name)
+			cd := oracle.RSCond(&post.Status, edsv1.ConditionTypePodsCleanupDone)
+			cleanupFalse := cd != nil && cd.Status == corev1.ConditionFalse
+			recErr := oracle.RSCondTrue(&post.Status, edsv1.ConditionTypeReconcileError)
+			rec.Class(fmt.Sprintf("canary-cleanup-deletions-failed=%v", injected > 0), 1)
+			if injected > 0 && !cleanupFalse && !recErr {
+				fail("C17/conditions/cleanup-failure-not-reflected/canary", fmt.Sprintf("%d clean-up deletions of the canary sync failed but neither ReconcileError is True nor PodsCleanupDone False (PodsCleanupDone=%+v)", injected, cd))
+			}
+			if injected == 0 && (cleanupFalse || recErr) {
+				fail("C17/conditions/failure-reported-without-failure/canary", fmt.Sprintf("no deletion failed but ReconcileError=%v PodsCleanupDone=%v", recErr, cd))
 			}
 		case "reconcile-cleanup":
 			// pods on nodes that are about to become ineligible: the sync cleans them up in parallel
